@@ -20,12 +20,13 @@ import (
 // Need reports whether the block under construction offers what the rule needs
 // (e.g. a spendable coin).
 type Rule struct {
-	Name     string
-	Stage    string // sanity | context | connect
-	Need     func(bb *blockBuilder) bool
-	Apply    func(bb *blockBuilder)
-	Edge     func(bb *blockBuilder)
-	EdgeNeed func(bb *blockBuilder) bool
+	Name          string
+	Stage         string // sanity | context (header rule) | bcontext (block-level contextual rule) | connect
+	Need          func(bb *blockBuilder) bool
+	Apply         func(bb *blockBuilder)
+	Edge          func(bb *blockBuilder)
+	EdgeNeed      func(bb *blockBuilder) bool
+	HeaderVisible bool // a sanity rule the bare header already breaks (not used when headers are delivered first: Chain.tla lets such headers pass)
 }
 
 func always(*blockBuilder) bool { return true }
@@ -45,8 +46,8 @@ var Catalogue = []Rule{
 	{Name: "bad-merkle-root", Stage: "sanity", Need: always, Apply: func(bb *blockBuilder) {
 		bb.post = func(h *wire.BlockHeader) { h.MerkleRoot[0] ^= 0x55 }
 	}},
-	{Name: "hash-above-target", Stage: "sanity", Need: always, Apply: func(bb *blockBuilder) { bb.unsolved = true }},
-	{Name: "time-too-new", Stage: "sanity", Need: always,
+	{Name: "hash-above-target", Stage: "sanity", HeaderVisible: true, Need: always, Apply: func(bb *blockBuilder) { bb.unsolved = true }},
+	{Name: "time-too-new", Stage: "sanity", HeaderVisible: true, Need: always,
 		Apply: func(bb *blockBuilder) {
 			bb.hdr.Timestamp = bb.f.Now().Add(2*time.Hour + time.Second)
 			bb.hdr.Bits = easyBits
@@ -128,7 +129,7 @@ var Catalogue = []Rule{
 			bb.hdr.Bits = hardBits
 		}
 	}},
-	{Name: "unfinalized-transaction", Stage: "context", Need: hasSpendable,
+	{Name: "unfinalized-transaction", Stage: "bcontext", Need: hasSpendable,
 		Apply: func(bb *blockBuilder) {
 			cd, _ := bb.freeCoin(func(c Coin) bool { return anyCoin(c) && bb.spendable(c) })
 			tx := bb.newSpend(cd, 0)
@@ -148,11 +149,11 @@ var Catalogue = []Rule{
 			bb.mine[wire.OutPoint{Hash: h}] = Coin{tx.TxOut[0].Value, tx.TxOut[0].PkScript, false, bb.height}
 			bb.f.Universe[wire.OutPoint{Hash: h}] = true
 		}},
-	{Name: "unexpected-witness", Stage: "context", Need: always, Apply: func(bb *blockBuilder) {
+	{Name: "unexpected-witness", Stage: "bcontext", Need: always, Apply: func(bb *blockBuilder) {
 		// witness data in a block whose coinbase carries no witness commitment
 		bb.txs[0].TxIn[0].Witness = wire.TxWitness{make([]byte, 32)}
 	}},
-	{Name: "bad-witness-commitment", Stage: "context", Need: always, Apply: func(bb *blockBuilder) {
+	{Name: "bad-witness-commitment", Stage: "bcontext", Need: always, Apply: func(bb *blockBuilder) {
 		bb.txs[0].TxIn[0].Witness = wire.TxWitness{make([]byte, 32)}
 		script := append([]byte{txscript.OP_RETURN, txscript.OP_DATA_36, 0xaa, 0x21, 0xa9, 0xed}, make([]byte, 32)...)
 		bb.txs[0].AddTxOut(&wire.TxOut{Value: 0, PkScript: script})
@@ -242,10 +243,35 @@ var Catalogue = []Rule{
 			bb.mine[wire.OutPoint{Hash: h}] = Coin{tx.TxOut[0].Value, tx.TxOut[0].PkScript, false, bb.height}
 			bb.f.Universe[wire.OutPoint{Hash: h}] = true
 		}},
+	{Name: "sequence-time-lock-not-met", Stage: "connect",
+		Need: func(bb *blockBuilder) bool { _, _, ok := bb.timeLockCoin(); return ok },
+		Apply: func(bb *blockBuilder) {
+			cd, d, _ := bb.timeLockCoin()
+			tx := bb.newSpend(cd, 0)
+			tx.Version = 2
+			tx.LockTime = 0
+			// BIP68 time lock in units of 512 s, measured from the median time past of the block BEFORE the
+			// input's block to the median time past of the PARENT of the spending block (distance d): one unit too many
+			tx.TxIn[0].Sequence = wire.SequenceLockTimeIsSeconds | uint32(d/512+1)
+			bb.txs = append(bb.txs, tx)
+		},
+		EdgeNeed: func(bb *blockBuilder) bool { _, d, ok := bb.timeLockCoin(); return ok && d >= 512 },
+		Edge: func(bb *blockBuilder) {
+			cd, d, _ := bb.timeLockCoin()
+			tx := bb.newSpend(cd, 0)
+			tx.Version = 2
+			tx.LockTime = 0
+			tx.TxIn[0].Sequence = wire.SequenceLockTimeIsSeconds | uint32(d/512) // exactly met
+			bb.txs = append(bb.txs, tx)
+			delete(bb.mine, cd.op)
+			h := tx.TxHash()
+			bb.mine[wire.OutPoint{Hash: h}] = Coin{tx.TxOut[0].Value, tx.TxOut[0].PkScript, false, bb.height}
+			bb.f.Universe[wire.OutPoint{Hash: h}] = true
+		}},
 }
 
 // defaultRule is used when the catalogue is off: one fixed rule per stage.
-var defaultRule = map[string]string{"sanity": "bad-merkle-root", "context": "time-not-after-median-time-past", "connect": "coinbase-pays-too-much"}
+var defaultRule = map[string]string{"sanity": "bad-merkle-root", "context": "time-not-after-median-time-past", "bcontext": "unexpected-witness", "connect": "coinbase-pays-too-much"}
 
 func ruleByName(n string) *Rule {
 	for i := range Catalogue {
@@ -263,7 +289,7 @@ func (f *Factory) pickRule(bb *blockBuilder, stage string) *Rule {
 	var ok []*Rule
 	for i := range Catalogue {
 		r := &Catalogue[i]
-		if r.Stage == stage && r.Need(bb) {
+		if r.Stage == stage && r.Need(bb) && !(f.HeaderMode && r.HeaderVisible) {
 			ok = append(ok, r)
 		}
 	}
@@ -321,4 +347,60 @@ func CheckCatalogue(ctx *vrun.Ctx) error {
 	ctx.AddModel(res.Distinct, res.Generated)
 	ctx.SetExtra("catalogue_rules", int64(len(Catalogue)))
 	return nil
+}
+
+// branchTimes returns the timestamps of the real chain from the real genesis
+// block up to abstract block b (index = real height).
+func (f *Factory) branchTimes(b int) []int64 {
+	ts := []int64{f.Params.GenesisBlock.Header.Timestamp.Unix()}
+	for _, pb := range f.Pre {
+		ts = append(ts, pb.MsgBlock().Header.Timestamp.Unix())
+	}
+	path := f.Sc.Path(b)
+	for _, x := range path {
+		if x == 0 {
+			if len(f.Pre) == 0 {
+				continue // abstract block 0 is the real genesis, already listed
+			}
+			continue // abstract block 0 is the last preamble block, already listed
+		}
+		ts = append(ts, f.Blocks[x].MsgBlock().Header.Timestamp.Unix())
+	}
+	return ts
+}
+
+func medianAt(ts []int64, k int) int64 {
+	lo := k - 10
+	if lo < 0 {
+		lo = 0
+	}
+	w := append([]int64(nil), ts[lo:k+1]...)
+	for i := range w {
+		for j := i + 1; j < len(w); j++ {
+			if w[j] < w[i] {
+				w[i], w[j] = w[j], w[i]
+			}
+		}
+	}
+	return w[len(w)/2]
+}
+
+// timeLockCoin picks a spendable coin and returns the distance in seconds
+// between the median time past of the block before the coin's block and the
+// median time past of the parent of the block under construction.
+func (bb *blockBuilder) timeLockCoin() (cand, int64, bool) {
+	cd, ok := bb.freeCoin(func(c Coin) bool { return anyCoin(c) && bb.spendable(c) && c.Height >= 1 })
+	if !ok {
+		return cd, 0, false
+	}
+	ts := bb.f.branchTimes(bb.p)
+	parentH := int(bb.height) - 1
+	if parentH >= len(ts) || int(cd.c.Height)-1 < 0 {
+		return cd, 0, false
+	}
+	d := medianAt(ts, parentH) - medianAt(ts, int(cd.c.Height)-1)
+	if d < 0 {
+		return cd, 0, false
+	}
+	return cd, d, true
 }
